@@ -60,6 +60,7 @@ def run(res, programs, tier):
             halftest.rule(res, P, P.name, "R06.5")
             _r06_6(res, P, P.name)
             _r06_7(res, P, P.name)
+            exact_laundering(res, P, P.name, "R06.8")
     res.rule("R06.1", "infallible From<A> for B between number types only along value-set inclusions (impl table)")
     res.rule("R06.2", "a right shift of the converted value inside a TryFrom body is dominated by a test of the shifted-out bits with an Err edge")
     res.rule("R06.4", "sibling agreement: f32/f64 FloatEncoding::{encode,decode} have the same structure; to_f32/to_f64 of large integers split at one position (kept bits, sticky range, exponent)")
@@ -346,6 +347,38 @@ def _r06_7(res, P, cfgname):
             else:
                 res.fail("R06.7", cfgname, key, "%s tests `exponent %s %s` but the %s format requires %d (MAX_EXP=%d, MIN_EXP=%d, MANT_DIG=%d): values at the boundary are sent to infinity / zero although representable" % (
                     f["p"], op, found[op][0], ty, w, par["MAX_EXP"], par["MIN_EXP"], par["MANT_DIG"]), span_loc(found[op][1]["sp"]))
+
+
+# ---------------------------------------------------------------------------------------------
+# R06.8 (= R03.4b)  flag laundering.  `x.value()` drops the Exact / Inexact flag of a rounding step; wrapping the
+# result in `Exact(..)` afterwards reports a rounded value as exact.  No `Exact(..)` literal in the float /
+# rational crates is built from the `.value()` of a Rounded result (count on the reviewed tree: 0; floors on
+# the numbers of Exact literals and value() calls keep the rule from passing vacuously).
+def exact_laundering(res, P, cfgname, rid):
+    res.rule(rid, "no Approximation::Exact(..) is built from the .value() of a rounding result (the Inexact flag of an intermediate rounding must reach the caller)")
+    nexact = nvalue = 0
+    for f in P.fns():
+        if f["crate"] not in ("dashu_float", "dashu_ratio") or not f.get("mir"):
+            continue
+        S = None
+        for bb, t, fr in mir.iter_calls(f["mir"]):
+            cp = fr and (fr.get("rp") or fr["p"])
+            if cp and cp.endswith("Approximation::<T, E>::value"):
+                nvalue += 1
+        k = 0
+        for i, j, st in mir.iter_stmts(f["mir"]):
+            if st["k"] == "as" and st["rv"]["k"] == "agg" and str(st["rv"].get("adt", "")).endswith("approx::Approximation") and st["rv"].get("vn") == "Exact":
+                nexact += 1
+                S = S or sym.Sym(f)
+                t = S.operand(st["rv"]["ops"][0])
+                vs = [x for x in sym.subterms(t) if isinstance(x, tuple) and x[0] == "call" and x[1].endswith("Approximation::<T, E>::value")]
+                if vs:
+                    k += 1
+                    res.fail(rid, cfgname, "%s Exact(..value()..) #%d" % (f["p"], k), "%s wraps `%s` in Exact(..): the value comes from the .value() of a rounding step whose Inexact flag is thereby discarded" % (f["p"], sym.term_str(vs[0], 90)), span_loc(st["sp"]))
+    if nexact >= 30 and nvalue >= 20:
+        res.ok(rid, cfgname, "no Exact(..) literal launders a .value() (%s)" % cfgname, sample=dict(exact_literals=nexact, value_calls=nvalue))
+    res.floor(rid, cfgname, nexact, 30, "Approximation::Exact literals in dashu_float / dashu_ratio")
+    res.floor(rid, cfgname, nvalue, 20, "Approximation::value calls in dashu_float / dashu_ratio")
 
 
 LEVEL = LEVEL + ' Also (R06.4) the f32 / f64 encode kernels and the to_fNN splits agree structurally, (R06.5) every half test compares a remainder with the divisor it came from, (R06.6) IBig `>>` (flooring) appears only at reviewed exact sites.'
